@@ -21,6 +21,10 @@ type Ctx struct {
 	FailAt int   // index of the call that returns Err (-1: none)
 	Err    error // the injected error
 	Guard  int   // panic when more than Guard calls were made (0: off)
+	// Hook, when set, runs inside the HookAt-th action call (before it returns):
+	// used to have a second parser object at work while this parse is under way.
+	Hook   func()
+	HookAt int
 }
 
 var ErrInjected = errors.New("injected action failure")
@@ -39,6 +43,9 @@ func N(ctx any, tag string, args ...any) (any, error) {
 	c.Log = append(c.Log, Call{Tag: tag, Args: append([]any{}, args...)})
 	if c.Guard > 0 && len(c.Log) > c.Guard {
 		panic(GuardPanic{})
+	}
+	if c.Hook != nil && k == c.HookAt {
+		c.Hook()
 	}
 	if k == c.FailAt {
 		return nil, c.Err
